@@ -42,6 +42,8 @@ def attribute(ev, cl, tags, trace):
     """set of property ids a failing clause `cl` of event `ev` is evidence against"""
     op = ev["op"]
     kind = trace.get("kind", "")
+    if cl == "budget":
+        return set()      # (a magnitude beyond what TLC's integers hold: the trace ends there, nobody's fault)
     if kind == "userfcn":
         return {"C17"}
     if kind == "edge":
